@@ -160,6 +160,7 @@ class Rules:
             self.r_preconsume(I, seg)
             self.r_macrosep(I, seg)
             self.r_payload_escape(I, seg)
+            self.r_mark_provenance(I, seg)
 
     # -- R-NONEMPTY and R-ERR-PAIR ---------------------------------------------------------------
     MAY_BE_EMPTY = {"EOF", "MacroSep", "MacroStringEmpty", "SEMI", "LPAREN", "RPAREN", "ASSIGN", "COMMA", "FSLASH",
@@ -412,6 +413,24 @@ class Rules:
                          "token start byte/char offsets are one cursor snapshot" if ok else
                          "token start offsets are not one cursor snapshot (byte=%r start=%r): byte and char positions of the token disagree"
                          % (e.d.get("byte"), e.d.get("start")))
+                    # the line component: the last line that had been added when the cursor stood at that snapshot
+                    ln = e.d.get("line")
+                    if ok and isinstance(ln, Term) and ln.op == "last_line" and ln.args and isinstance(ln.args[0], Const) and ln.args[0].v >= 0 \
+                            and b[3] == 0 and b[2] < 50000:
+                        all_evs = seg.events
+                        upto = all_evs.index(e)
+                        k = ln.args[0].v
+                        lines = [(x.d.get("epoch_after"), x.d.get("pos", 10 ** 9)) for x in all_evs[:upto] if x.kind == "add_line"]
+                        # lines added after the line value was read, but starting at or before the token start
+                        late = [q for ep, q in lines if ep is not None and ep > k and q <= b[2]]
+                        # the line value read belongs to a line that starts after the token start
+                        early = [q for ep, q in lines if ep == k and q > b[2]]
+                        okl = not late and not early
+                        I.ob("R-OFFSET-PROVENANCE", key + "|line", okl, self.sites.where(e),
+                             "the token's line is the last line added up to its start position" if okl else
+                             ("the token starts at position label %d but its line was read %s: start line and column of the token "
+                              "(and the end of the previous one) are wrong when a line feed sits in between"
+                              % (b[2], "before the line starting at label %d was added" % late[0] if late else "after the line starting at label %d was added" % early[0])))
                 if b is not None:
                     if last_tok is not None and b[1] == last_tok[1] and b[2] < last_tok[2] and seg.name in ("Lexer::lex_token", "Lexer::finalize_lexing"):
                         I.ob("R-EMIT-ORDER", "%s|decreasing" % short_fn(e.d.get("owner") or "?"), False, self.sites.where(e),
@@ -436,6 +455,31 @@ class Rules:
         if seg.name == "Lexer::lex_token":
             I.ob("R-EMIT-ORDER", "lex_token|paths", True, "", "token start snapshots are non-decreasing along the step")
             I.ob("R-ERR-ORDER", "lex_token|paths", True, "", "error offsets are non-decreasing along the step")
+
+    # -- R-OFFSET-PROVENANCE for position triples handed around as values (token marks) -----------------------------
+    def r_mark_provenance(self, I, seg):
+        """A function that returns (byte offset, char offset, line) as a token position returns one cursor snapshot
+        and the line that is current *at that moment* (not one remembered from the token start)."""
+        from . import lea_prims
+        v = seg.out.val if seg.out.kind == "val" else None
+        if not (isinstance(v, Tup) and len(v.items) == 3):
+            return
+        b, c = lea_prims.snap_of(v.items[0]), lea_prims.snap_of(v.items[1])
+        if b is None or c is None or b[0] != "byte" or c[0] != "char":
+            return
+        ln = v.items[2]
+        key = "%s|returned-mark" % short_fn(seg.name)
+        self.bump("R-OFFSET-PROVENANCE", "mark_fns", key)
+        ok = b[1:] == c[1:]
+        why = "byte and char offsets are different snapshots"
+        if ok:
+            cur = seg.st.lines_epoch
+            ok = isinstance(ln, Term) and ln.op in ("last_line", "line_idx") and ln.args and isinstance(ln.args[0], Const) and ln.args[0].v == cur
+            why = "the line component %r is not the line current when the snapshot is taken (line epoch %d)" % (ln, cur)
+        I.ob("R-OFFSET-PROVENANCE", key, ok, F.file_line(self.fx.bodies[seg.name]["span"]) if seg.name in self.fx.bodies else "",
+             "the returned position triple is one cursor snapshot with the line current at that moment" if ok else
+             "%s returns a token position whose parts do not belong together: %s; a token emitted at this mark gets a wrong line / "
+             "column once a line feed was consumed since the token start" % (short_fn(seg.name), why))
 
     # -- R-SPEC-PURITY: no diagnostics while a checkpoint is live ------------------------------------
     def r_spec_purity(self, I, seg):
@@ -603,38 +647,40 @@ class Rules:
     # -- R-PAYLOAD-ESCAPE: a token whose text skipped an escape character carries a payload ----------------------
     def r_payload_escape(self, I, seg):
         """A literal section is cut (add_string_literal) only where the scanner skips a quoting character.  If that
-        happened since the token start, the token emitted by the same scanner must carry the unquoted payload; the
-        lexer decides this by comparing literal-buffer positions, which LEA tracks as ordered labels."""
+        happened since the token start, the token emitted next (by the scanner or by a helper it hands the payload to)
+        must carry the unquoted payload; the lexer decides this by comparing literal-buffer positions, which LEA
+        tracks as ordered labels."""
         from . import lea_prims
         st = seg.st
         evs = seg.events
+        cuts = []
         for idx in range(seg.start, len(evs)):
-            e = evs[idx]
-            if e.kind != "emit" or e.d.get("owner") != seg.name:
+            x = evs[idx]
+            if x.kind == "cur_token_write" and x.d.get("field") == "cur_token_byte_offset":
+                cuts = []
+            if x.kind in ("cursor_restore", "buffer_rollback"):
+                cuts = []
+            if x.kind == "add_literal" and (x.d.get("owner") == seg.name or x.fn == seg.name):
+                cuts.append(x)
+            if x.kind == "lasttok_write" and x.d.get("field") == "payload" and cuts:
+                pass
+            if x.kind != "emit" or not cuts:
                 continue
+            e = x
             pl = e.d.get("payload")
-            sn = lea_prims.snap_of(e.d.get("byte"))
-            if sn is None:
-                continue
-            cuts = []
-            for x in evs[seg.start:idx]:
-                if x.kind == "cur_token_write" and x.d.get("field") == "cur_token_byte_offset":
-                    cuts = []
-                if x.kind == "add_literal" and (x.d.get("owner") == seg.name or x.fn == seg.name):
-                    cuts.append(x)
-            if not cuts:
+            if lea_prims.snap_of(e.d.get("byte")) is None:
                 continue
             key = "%s|%s" % (short_fn(seg.name), self.sites.key(e).split("|", 1)[-1])
             self.bump("R-PAYLOAD-ESCAPE", "emissions", key)
             none = isinstance(pl, Enum) and pl.variant == "None"
             assumed = any("litpos" in repr(k) or "lit_end" in repr(k) or "lit_next" in repr(k) for k in st.bfacts)
-            if none and assumed:
-                continue      # the comparison of buffer positions was not decidable on this path: no verdict
-            I.ob("R-PAYLOAD-ESCAPE", key, not none, self.sites.where(e),
-                 "the token is emitted with its unquoted payload after %d literal section cut(s)" % len(cuts) if not none else
-                 "the scanner skipped a quoting character (literal section cut at %s, empty=%s) but the token is emitted with "
-                 "Payload::None: its text still contains the quoting; conditions: %s"
-                 % (F.file_line(cuts[0].site or "?"), cuts[0].d.get("empty"), "; ".join(st.conds[-4:])[:240]))
+            if not (none and assumed):      # (undecidable comparison of buffer positions on this path: no verdict)
+                I.ob("R-PAYLOAD-ESCAPE", key, not none, self.sites.where(e),
+                     "the token is emitted with its unquoted payload after %d literal section cut(s)" % len(cuts) if not none else
+                     "the scanner skipped a quoting character (literal section cut at %s, empty=%s) but the token is emitted with "
+                     "Payload::None: its text still contains the quoting; conditions: %s"
+                     % (F.file_line(cuts[0].site or "?"), cuts[0].d.get("empty"), "; ".join(st.conds[-4:])[:240]))
+            cuts = []
 
     # -- R-MACROSEP-EMIT (emission sites): a MacroSep is only emitted on a path where needs_macro_sep said yes -----
     def r_macrosep(self, I, seg):
